@@ -46,7 +46,7 @@ pub const EXCLUDED: &[(&str, &str)] = &[
     ("bare try/catch and `?` whose outputs flow on (always emitted as `[try … catch …] | .[]`, `[…?] | .[]`)", "jq 1.6's try/`?` also catches errors and `break`s raised downstream of its outputs (fixed in 1.7); measured: first(… try …), `|=` with try on the right, {a: f?, b: error}"),
     ("string * n with n <= 0 or fractional n", "1.6: null / the string itself; jq >= 1.7 differs (jqlang/jq#1593), the recordings do not cover it"),
     ("literal / 0 and other constant-foldable operands of a zero divisor", "jq folds constants at compile time (`1 / 0` is a compile error, `(0 | .) / 0` is NaN in 1.6)"),
-    ("open findings, excluded by construction while open (each has a committed replay)", "sqrt; last(f) of an empty stream; split/`/` on the empty string; index/rindex/indices(string) on an object input"),
+    ("open findings, excluded by construction while open (each has a committed replay)", "sqrt; bare flatten; last(f) of an empty stream; split/`/` on the empty string; index/rindex/indices(string) on an object input"),
     ("walk, combinations, transpose, map_values, min_by/max_by, nth, splits, env", "not in the recorded vocabulary (golden filters + error probes)"),
 ];
 
@@ -870,7 +870,8 @@ impl<'a, 'b> Gen<'a, 'b> {
                     }
                     8 => {
                         self.op("flatten");
-                        let t = if self.u.bool() { "flatten".to_string() } else { format!("flatten({})", self.u.range(0, 2)) };
+                        // bare `flatten` excluded while the finding flatten-only-one-level is open
+                        let t = format!("flatten({})", self.u.range(0, 3));
                         e1(t, Shape::ArrOf(Box::new(Shape::Any)))
                     }
                     9 => {
@@ -1172,7 +1173,7 @@ impl<'a, 'b> Gen<'a, 'b> {
             Shape::Bool => &[".foo", ".[0]", ".[]", "keys", "length", "(. + 1)", "(. - 1)", "has(\"a\")", "sort", "(. * 2)", "(1 / .)", "to_entries", "explode", "tonumber", "add", "utf8bytelength", "ascii_upcase", "startswith(\"a\")", "contains(1)", "split(\",\")", "join(\",\")", "fromjson"],
             Shape::Null => &[".[]", "keys", "has(\"a\")", "sort", "(1 - .)", "(. * 2)", "(. / 2)", "explode", "tonumber", "utf8bytelength", "startswith(\"a\")", "to_entries", "(. % 2)"],
             Shape::Arr(_) | Shape::ArrOf(_) => &[".foo", ".[\"a\"]", "(. + 1)", "(. - 1)", "(. + \"a\")", "(. + {})", "(. * 2)", "(. / 2)", "has(\"a\")", "explode", "tonumber", "ascii_downcase", "startswith(\"a\")", "utf8bytelength", "ltrimstr(1) | .foo", "(. % 2)", "split(\",\")", "fromjson", "contains(\"a\")", "({} + .)", ".[\"a\"]?, .foo", "setpath([\"a\"]; 1)", "(.a = 1)", "del(.a)", "has(\"0\")"],
-            Shape::Obj(_) => &[".[0]", "(. + 1)", "(. - {})", "(. + [])", "(. * 2)", "(. / {})", "has(0)", "sort", "explode", "tonumber", "ascii_downcase", "utf8bytelength", "flatten", "unique", "startswith(\"a\")", "join(\",\") | .[0]", "(. % 2)", "split(\",\")", "fromjson", "contains(1)", "setpath([0]; 1)", "(.[0] = 1)", "del(.[0])", ".[1:2]", "floor", "sqrt", "min | .[0]", "{(.): 1}"],
+            Shape::Obj(_) => &[".[0]", "(. + 1)", "(. - {})", "(. + [])", "(. * 2)", "(. / {})", "has(0)", "sort", "explode", "tonumber", "ascii_downcase", "utf8bytelength", "unique", "startswith(\"a\")", "join(\",\") | .[0]", "(. % 2)", "split(\",\")", "fromjson", "contains(1)", "setpath([0]; 1)", "(.[0] = 1)", "del(.[0])", ".[1:2]", "floor", "sqrt", "min | .[0]", "{(.): 1}"],
             Shape::Any => return None,
         };
         let a = *self.u.pick(atoms);
